@@ -15,11 +15,30 @@ pub enum Profile {
     Small,
     /// rich domains incl. malformed numbers, empty/binary tokens (parser differential, C16)
     Rich,
+    /// one or two well-formed values per letter: every command shape and option, no malformed arguments
+    /// (sharding differential C03: routing depends on the command and its keys, not on the values)
+    Routing,
 }
 
 pub fn domain(letter: char, p: Profile) -> Vec<Vec<u8>> {
     let s = |v: &[&str]| v.iter().map(|x| x.as_bytes().to_vec()).collect::<Vec<_>>();
     let rich = p == Profile::Rich;
+    if p == Profile::Routing {
+        return match letter {
+            'K' => s(&["k1", "k2"]),
+            'V' | 'M' => s(&["a"]),
+            'I' | 'F' | 'B' => s(&["1"]),
+            'X' => s(&["0", "-1"]),
+            'P' => s(&["*"]),
+            'C' => s(&["0", "2"]),
+            'T' => s(&["100000"]),
+            'S' => s(&["-inf", "+inf"]),
+            'D' => s(&["LEFT", "RIGHT"]),
+            'L' => s(&["return 1", "return redis.call('SET',KEYS[1],ARGV[1])", "return redis.call('GET',KEYS[1])"]),
+            'H' => s(&["0000000000000000000000000000000000000000", "e0e1f9fabfc9d4800c877a703b823ac0578ff8db"]),
+            _ => panic!("unknown domain letter {letter}"),
+        };
+    }
     let mut d = match letter {
         'K' => s(&["k1", "k2"]),
         'V' => s(&["a", "10", ""]),
